@@ -152,9 +152,46 @@ def aggregation_scenarios(name=None):
             yield {"scenario": "aggregation", "function": nm, "indices": idx, "scale": scale}
 
 
+# ---------------------------------------------------------------------------- normalization of a linear function
+def _normalize(sparse, policies):
+    """g = f.normalize(space): g(xn) = f(unnormalize(xn)), Dg = Df diag(ub - lb on normalised components), and f itself is untouched."""
+    from gemseo.algos.design_space import DesignSpace
+    from gemseo.core.mdo_functions.mdo_linear_function import MDOLinearFunction
+    from scipy.sparse import csr_array
+
+    a = np.array([[1.0, 0.0, 2.0], [0.0, 3.0, 4.0]])
+    b = np.array([0.5, -1.0])
+    lb, ub = np.array([-1.0, 0.0, 2.0]), np.array([3.0, 2.0, 7.0])
+    space = DesignSpace()
+    for i, pol in enumerate(policies):
+        space.add_variable(f"x{i}", lower_bound=lb[i], upper_bound=ub[i], value=(lb[i] + ub[i]) / 2)
+        space.normalize[f"x{i}"] = np.array([bool(pol)])
+    f = MDOLinearFunction(csr_array(a) if sparse else a.copy(), "f", value_at_zero=b.copy())
+    try:
+        g = f.normalize(space)
+    except Exception as e:  # noqa: BLE001
+        return {"what": "exception", "exception": repr(e)}
+    dense = lambda m: m.toarray() if hasattr(m, "toarray") else np.asarray(m)  # noqa: E731
+    scale = np.where(policies, ub - lb, 1.0)
+    shift = np.where(policies, lb, 0.0)
+    if not np.allclose(dense(f.coefficients), a, atol=TOL) or not np.allclose(f.value_at_zero, b, atol=TOL):
+        return {"what": "normalize modified the coefficients / offset of the function it was applied to", "coefficients-after": dense(f.coefficients).tolist(),
+                "coefficients-before": a.tolist()}
+    if not np.allclose(dense(g.coefficients), a * scale, atol=TOL) or not np.allclose(g.value_at_zero, a @ shift + b, atol=TOL):
+        return {"what": "normalized function differs from A diag(s), A shift + b", "got": dense(g.coefficients).tolist(), "expected": (a * scale).tolist()}
+    return None
+
+
+def normalize_scenarios():
+    for sparse, policies in itertools.product((True, False), ([True, True, True], [True, False, True], [False, False, False])):
+        yield {"scenario": "normalize", "sparse": sparse, "policies": policies}
+
+
 def run(w):
     if w["scenario"] == "algebra":
         return _algebra(w["op"], w["m"], w["n"], w["second"])
+    if w["scenario"] == "normalize":
+        return _normalize(w["sparse"], w["policies"])
     return _aggregation(w["function"], w["indices"], w["scale"])
 
 
@@ -171,6 +208,8 @@ def replay(ob, seed=0):
         scen = [w for w in algebra_scenarios() if w["op"] in ops]
         if "unexpected-ValueError" in name:
             scen = [w for w in scen if w["m"] != w["n"]] + scen
+    elif func.endswith("MDOLinearFunction.normalize"):
+        scen = [w for w in normalize_scenarios() if w["sparse"] == ("@sparse" in name)]
     else:
         return None
     for w in scen:
